@@ -413,7 +413,26 @@ def make_payloads(rec):
             items.append(s.dist._queue_outgoing.get_nowait())
         comp = [i for i in items if i['completed']]
         done = s.dist._outgoing_to_json(comp[-1])
-    return {'updated': upd, 'completed': done}
+    # one notification completing TWO runs at once (two runs of the pattern advanced together)
+    s2 = System(rec)
+    s2.dist._running = True
+    with rec.as_role('engine', 'payload'):
+        s2.feed(1)
+        s2.engine.update()
+        s2.feed(1)
+        s2.engine.update()
+        s2.feed(2)
+        s2.engine.update()
+        while not s2.dist._queue_outgoing.empty():
+            s2.dist._queue_outgoing.get_nowait()
+        s2.feed(3)
+        s2.engine.update()
+        both = None
+        while not s2.dist._queue_outgoing.empty():
+            it = s2.dist._queue_outgoing.get_nowait()
+            if len(it['completed']) >= 2:
+                both = s2.dist._outgoing_to_json(it)
+    return {'updated': upd, 'completed': done, 'completed2': both}
 
 
 # operation table: name -> (role, prep(sys), op(sys, payloads)); prep runs on the caller's thread first
@@ -947,7 +966,19 @@ def full_queue_scenarios():
     def incoming_sync(s, p):
         s.incoming_client(1, 0, p['updated'])   # a SYNC arrives while the incoming queue is full
 
+    def bound_producer(s):
+        s.engine.producer._queue = Queue(maxsize=1)      # room for ONE completed run
+
+    def main_two_completions(s, p):
+        s.run_main_pass(p['completed2'])                 # one remote change completing two runs: the second does not fit
+
+    def engine_idle_updates(s, p):
+        for _ in range(3):
+            s.engine.update()                            # drains the producer queue (needs the producer lock)
+
     return [
+        ('producer-queue-overflow', bound_producer, ('dist_main', main_two_completions),
+         [('engine', engine_idle_updates), ('engine', engine_change)]),
         ('outgoing-queue-full', bound_outgoing, ('engine', engine_change),
          [('dist_outgoing', outgoing_passes), ('dist_main', main_pass)]),
         ('incoming-queue-full', bound_incoming, ('dist_incoming', incoming_sync),
